@@ -5,6 +5,7 @@
   before it in the same process, uses the key a fresh wallet's lookup gives.
 -/
 import GocoinV.Model.WalletKeysStore
+import GocoinV.Proofs.C14Lookup
 namespace GocoinV.WalletKeys.Store
 open GocoinV HD WalletKeys
 
@@ -33,6 +34,16 @@ theorem publicXoToKeyIdx_append_sub (a b : List KeyRec) (hb : ∀ x ∈ b, x ∈
   unfold publicXoToKeyIdx
   exact firstIdx_append_sub _ a b hb
 
+theorem pubhashToKeyIdx_append_sub (a b : List KeyRec) (hb : ∀ x ∈ b, x ∈ a) (h : Bytes) :
+    pubhashToKeyIdx (a ++ b) h = pubhashToKeyIdx a h := by
+  unfold pubhashToKeyIdx
+  exact firstIdx_append_sub _ a b hb
+
+theorem scripthashToKeyIdx_append_sub (C : WalletCrypto) (c : Config) (a b : List KeyRec) (hb : ∀ x ∈ b, x ∈ a) (h : Bytes) :
+    scripthashToKeyIdx C c (a ++ b) h = scripthashToKeyIdx C c a h := by
+  unfold scripthashToKeyIdx
+  exact firstIdx_append_sub _ a b hb
+
 theorem addrToIdx_append_sub (C : WalletCrypto) (c : Config) (a b : List KeyRec) (hb : ∀ x ∈ b, x ∈ a) (addr : Bytes) :
     addrToIdx C c (a ++ b) addr = addrToIdx C c a addr := by
   unfold addrToIdx addressToKeyIdx
@@ -41,7 +52,8 @@ theorem addrToIdx_append_sub (C : WalletCrypto) (c : Config) (a b : List KeyRec)
 theorem scriptToKeyIdx_append_sub (C : WalletCrypto) (c : Config) (a b : List KeyRec) (hb : ∀ x ∈ b, x ∈ a) (s : Bytes) :
     scriptToKeyIdx C c (a ++ b) s = scriptToKeyIdx C c a s := by
   unfold scriptToKeyIdx
-  simp only [hashToKeyIdx_append_sub C c a b hb, publicXoToKeyIdx_append_sub a b hb]
+  simp only [pubhashToKeyIdx_append_sub a b hb, scripthashToKeyIdx_append_sub C c a b hb,
+    publicXoToKeyIdx_append_sub a b hb]
 
 theorem hashToKeyIdx_lt (C : WalletCrypto) (c : Config) (a : List KeyRec) (h : Bytes) (i : Nat)
     (e : hashToKeyIdx C c a h = some i) : i < a.length := by
@@ -54,6 +66,22 @@ theorem hashToKeyIdx_lt (C : WalletCrypto) (c : Config) (a : List KeyRec) (h : B
 theorem publicXoToKeyIdx_lt (a : List KeyRec) (x : Bytes) (i : Nat)
     (e : publicXoToKeyIdx a x = some i) : i < a.length := by
   unfold publicXoToKeyIdx at e
+  simp only [] at e
+  split at e
+  · cases e; assumption
+  · cases e
+
+theorem pubhashToKeyIdx_lt (a : List KeyRec) (h : Bytes) (i : Nat)
+    (e : pubhashToKeyIdx a h = some i) : i < a.length := by
+  unfold pubhashToKeyIdx at e
+  simp only [] at e
+  split at e
+  · cases e; assumption
+  · cases e
+
+theorem scripthashToKeyIdx_lt (C : WalletCrypto) (c : Config) (a : List KeyRec) (h : Bytes) (i : Nat)
+    (e : scripthashToKeyIdx C c a h = some i) : i < a.length := by
+  unfold scripthashToKeyIdx at e
   simp only [] at e
   split at e
   · cases e; assumption
@@ -75,13 +103,102 @@ theorem scriptToKeyIdx_lt (C : WalletCrypto) (c : Config) (a : List KeyRec) (s :
     (e : scriptToKeyIdx C c a s = some i) : i < a.length := by
   unfold scriptToKeyIdx at e
   split at e
-  · exact hashToKeyIdx_lt C c a _ i e
+  · exact pubhashToKeyIdx_lt a _ i e
   · split at e
-    · exact hashToKeyIdx_lt C c a _ i e
+    · exact scripthashToKeyIdx_lt C c a _ i e
     · split at e
-      · exact hashToKeyIdx_lt C c a _ i e
+      · exact pubhashToKeyIdx_lt a _ i e
       · split at e
         · exact publicXoToKeyIdx_lt a _ i e
+        · cases e
+
+/-! ### the script lookup on the four own forms, and its soundness -/
+
+theorem scriptToKeyIdx_p2pkh (C : WalletCrypto) (c : Config) (keys : List KeyRec) (h : Bytes) (hl : h.length = 20) :
+    scriptToKeyIdx C c keys (p2pkhScr h) = pubhashToKeyIdx keys h := by
+  have e1 : (p2pkhScr h).length = 25 := by simp [p2pkhScr, hl]
+  have e2 : (p2pkhScr h).take 3 = [0x76, 0xa9, 0x14] := by simp [p2pkhScr]
+  have e3 : (p2pkhScr h).drop 23 = [0x88, 0xac] := by
+    simp only [p2pkhScr, List.append_assoc]
+    rw [show (23 : Nat) = ([0x76, 0xa9, 0x14] ++ h : Bytes).length by simp [hl], ← List.append_assoc, List.drop_left]
+  have e4 : ((p2pkhScr h).drop 3).take 20 = h := by
+    simp only [p2pkhScr, List.append_assoc]
+    rw [show (3 : Nat) = ([0x76, 0xa9, 0x14] : Bytes).length by rfl, List.drop_left, ← hl, List.take_left]
+  unfold scriptToKeyIdx
+  rw [if_pos ⟨e1, e2, e3⟩, e4]
+
+theorem scriptToKeyIdx_p2sh (C : WalletCrypto) (c : Config) (keys : List KeyRec) (h : Bytes) (hl : h.length = 20) :
+    scriptToKeyIdx C c keys (p2shScr h) = scripthashToKeyIdx C c keys h := by
+  have e1 : (p2shScr h).length = 23 := by simp [p2shScr, hl]
+  have e2 : (p2shScr h).take 2 = [0xa9, 0x14] := by simp [p2shScr]
+  have e3 : (p2shScr h).drop 22 = [0x87] := by
+    simp only [p2shScr, List.append_assoc]
+    rw [show (22 : Nat) = ([0xa9, 0x14] ++ h : Bytes).length by simp [hl], ← List.append_assoc, List.drop_left]
+  have e4 : ((p2shScr h).drop 2).take 20 = h := by
+    simp only [p2shScr, List.append_assoc]
+    rw [show (2 : Nat) = ([0xa9, 0x14] : Bytes).length by rfl, List.drop_left, ← hl, List.take_left]
+  unfold scriptToKeyIdx
+  rw [if_neg (by rw [e1]; omega), if_pos ⟨e1, e2, e3⟩, e4]
+
+theorem scriptToKeyIdx_p2wpkh (C : WalletCrypto) (c : Config) (keys : List KeyRec) (h : Bytes) (hl : h.length = 20) :
+    scriptToKeyIdx C c keys (p2wpkhScr h) = pubhashToKeyIdx keys h := by
+  have e1 : (p2wpkhScr h).length = 22 := by simp [p2wpkhScr, hl]
+  have e2 : (p2wpkhScr h).take 2 = [0x00, 0x14] := by simp [p2wpkhScr]
+  have e4 : (p2wpkhScr h).drop 2 = h := by simp [p2wpkhScr]
+  unfold scriptToKeyIdx
+  rw [if_neg (by rw [e1]; omega), if_neg (by rw [e1]; omega), if_pos ⟨e1, e2⟩, e4]
+
+theorem scriptToKeyIdx_p2tr (C : WalletCrypto) (c : Config) (keys : List KeyRec) (x : Bytes) (hl : x.length = 32) :
+    scriptToKeyIdx C c keys (p2trScr x) = publicXoToKeyIdx keys x := by
+  have e1 : (p2trScr x).length = 34 := by simp [p2trScr, hl]
+  have e2 : (p2trScr x).take 2 = [0x51, 32] := by simp [p2trScr]
+  have e4 : (p2trScr x).drop 2 = x := by simp [p2trScr]
+  unfold scriptToKeyIdx
+  rw [if_neg (by rw [e1]; omega), if_neg (by rw [e1]; omega), if_neg (by rw [e1]; omega), if_pos ⟨e1, e2⟩, e4]
+
+theorem split3 (s : Bytes) (a b : Nat) : s = s.take a ++ ((s.drop a).take b ++ s.drop (a + b)) := by
+  rw [← List.drop_drop, List.take_append_drop, List.take_append_drop]
+
+/-- soundness of the script lookup: a script attributed to record j IS one of record j's own four scripts -/
+theorem scriptToKeyIdx_only_own (C : WalletCrypto) (c : Config) (keys : List KeyRec) (scr : Bytes) (j : Nat)
+    (e : scriptToKeyIdx C c keys scr = some j) :
+    ∃ hj : j < keys.length,
+      scr = p2pkhScr keys[j].h160 ∨ scr = p2wpkhScr keys[j].h160 ∨
+      (bech32Mode c.atype = false ∧ scr = p2shScr (C.hash160 ([0, 20] ++ keys[j].h160))) ∨
+      scr = p2trScr ((keys[j].pubkey.drop 1).take 32) := by
+  unfold scriptToKeyIdx at e
+  split at e
+  · rename_i h
+    obtain ⟨hj, hp, _⟩ := firstIdx_sound _ keys j e
+    refine ⟨hj, Or.inl ?_⟩
+    have hp' : keys[j].h160 = (scr.drop 3).take 20 := by simpa using hp
+    have := split3 scr 3 20
+    rw [h.2.1, h.2.2, ← hp'] at this
+    simpa [p2pkhScr] using this
+  · split at e
+    · rename_i h
+      obtain ⟨hj, hp, _⟩ := firstIdx_sound _ keys j e
+      refine ⟨hj, Or.inr (Or.inr (Or.inl ?_))⟩
+      simp only [Bool.and_eq_true, Bool.not_eq_true', beq_iff_eq] at hp
+      have := split3 scr 2 20
+      rw [h.2.1, h.2.2, ← hp.2] at this
+      exact ⟨hp.1, by simpa [p2shScr] using this⟩
+    · split at e
+      · rename_i h
+        obtain ⟨hj, hp, _⟩ := firstIdx_sound _ keys j e
+        refine ⟨hj, Or.inr (Or.inl ?_)⟩
+        have hp' : keys[j].h160 = scr.drop 2 := by simpa using hp
+        have := (List.take_append_drop 2 scr).symm
+        rw [h.2, ← hp'] at this
+        simpa [p2wpkhScr] using this
+      · split at e
+        · rename_i h
+          obtain ⟨hj, hp, _⟩ := firstIdx_sound _ keys j e
+          refine ⟨hj, Or.inr (Or.inr (Or.inr ?_))⟩
+          have hp' : (keys[j].pubkey.drop 1).take 32 = scr.drop 2 := by simpa using hp
+          have := (List.take_append_drop 2 scr).symm
+          rw [h.2, ← hp'] at this
+          simpa [p2trScr] using this
         · cases e
 
 /-- an index found in the front part reads the front part's record -/
